@@ -1005,6 +1005,34 @@ where
         }
     }
 
+    /// Verification hook: run the (private) request processing function
+    /// on an arbitrary PDU without a socket.
+    ///
+    /// Returns the PDU to send back plus, on success,
+    /// the negotiated presentation contexts, the requestor's maximum PDU length,
+    /// the calling AE title and the called AE title;
+    /// on failure, the error.
+    #[allow(unexpected_cfgs)]
+    #[cfg(dicom_rs_verif)]
+    #[allow(clippy::result_large_err, clippy::type_complexity)]
+    pub fn verif_process_rq(
+        &self,
+        msg: Pdu,
+    ) -> std::result::Result<
+        (Pdu, Vec<PresentationContextNegotiated>, u32, String, String),
+        (Pdu, Error),
+    > {
+        self.process_a_association_rq(msg).map(|(pdu, opts, called)| {
+            (
+                pdu,
+                opts.presentation_contexts,
+                opts.peer_max_pdu_length,
+                opts.peer_ae_title,
+                called,
+            )
+        })
+    }
+
     /// Negotiate an association with the given TCP stream.
     pub fn establish(&self, mut socket: TcpStream) -> Result<ServerAssociation<TcpStream>> {
         ensure!(
